@@ -6,7 +6,7 @@ declare -A MAP=( [N_A1]="C03 C01 C02" [N_A2]="C04 C01" [N_A3]="C01 C02 C05 C06 C
  [N_C1]="C08 C10 C15" [N_C2]="C07 C10" [N_C3]="C09 C10" [N_C4]="C07 C08 C09 C10"
  [N_D1]="C12 C15" [N_D2]="C18" [N_D3]="C19 C12" [N_D4]="C20 C11"
  [N_E1]="C01 C02 C06 C16 C19" [N_E2]="C01 C02 C06 C16" [N_E3]="C01 C02 C06 C19" [N_E4]="C01 C02 C06 C16"
- [N_F1]="C05 C14 C16 C19" [N_F2]="C05 C14 C19" [N_F3]="C04 C05 C14" [N_F4]="C05 C14 C16 C13" [N_G1]="C12 C15" )
+ [N_F1]="C05 C14 C16 C19" [N_F2]="C05 C14 C19" [N_F3]="C04 C05 C14" [N_F4]="C05 C14 C16 C13" [N_G1]="C12 C15" [N_H1]="C18" )
 names=${@:-$(printf '%s\n' "${!MAP[@]}" | sort)}
 mkdir -p out/neg
 for n in $names; do
